@@ -7,6 +7,10 @@ Open Scope list_scope.
 Open Scope Z_scope.
 Infix "+++" := append (right associativity, at level 60).
 
+(* byte-list spelling of a string (the glue writes non-ASCII strings this way) *)
+Definition bs (l : list N) : string :=
+  fold_right (fun n acc => String (ascii_of_N n) acc) EmptyString l.
+
 (* Error kinds: the variants of rules::errors::Error that evaluation can raise. *)
 Inductive err_kind :=
 | ENotComparable | EIncompatible | EMissingValue | ERegex | EParse
